@@ -66,7 +66,7 @@ def run_direct_property(prop, eps, sizes, nrandom, want_default, extra_must=None
         mc_states += r.distinct
         mc_trans += r.generated
         n_decl_space[fam] = len(adecls)
-        sample = CV.sample_decls(adecls, sizes.get(fam), rng, must=extra_must or (lambda ad: ad["vmode"] != "std"))
+        sample = CV.sample_decls(adecls, sizes.get(fam), rng, must=extra_must)
         decls = CV.instantiate_slice(fam, sample, rng, "%s%s_" % (prop.lower(), fam[0]), lifts=lifts)
         if const_twins and fam in ("int", "float"):
             twins = []
@@ -313,6 +313,7 @@ def check_C07():
     sizes = {"int": 70, "float": 70, "string": 80, "any": 20} if q else {"int": 400, "float": 500, "string": 600, "any": None}
     eps = {"try_new", "new", "try_from", "try_from_ref", "from_str_s"}
     return run_direct_property("C07", eps, sizes, 40 if q else 300, False, mc_suffix="c07", const_twins=True,
+                               extra_must=lambda ad: ad["fam"] == "float" and any(r["k"] == "predicate" and r["fn"] == "not_nan" for r in ad["val"]),
                                lifts=1 if q else 2, reject_is_violation=variant_reject,
                                evidence_extra={"slice": "every permutation of the validator lists (int: lower+upper+predicate; "
                                                "float: lower+upper+finite+predicate; string: 4 and 5 of not_empty, len_char_min, "
